@@ -154,6 +154,13 @@ func vRunVar(tag string, src interface{}, rules ...string) {
 	r := vNewRef()
 	r.local = map[string]bool{"r1": true}
 	tv := vDeref(reflect.ValueOf(src))
+	if !tv.IsValid() || !vVarSupported(tv.Type()) {
+		// nil pointers and kinds the README does not list for Var (it lists slices / arrays / single
+		// int, float, bool, string): an error, and no rule is evaluated
+		vAssert(err != nil && len(vULog) == 0, tag+": an input Var does not support yields an error and no rule evaluation")
+		vReach("end")
+		return
+	}
 	for _, rule := range rules {
 		for _, item := range vSplitRules(rule) {
 			if item != "" {
@@ -192,6 +199,18 @@ func H_C03_var() {
 	case 7:
 		vRunVar("C03 Var([0]int)", [0]int{}, "required,r1")
 	}
+}
+
+// vVarSupported: README "变量可以为切片/数组/单个[int,float,bool,string]"
+func vVarSupported(t reflect.Type) bool {
+	switch t.Kind() {
+	case reflect.Slice, reflect.Array:
+		return vVarSupported(t.Elem())
+	case reflect.String, reflect.Bool, reflect.Int, reflect.Int8, reflect.Int16, reflect.Int32, reflect.Int64,
+		reflect.Uint, reflect.Uint8, reflect.Uint16, reflect.Uint32, reflect.Uint64, reflect.Float32, reflect.Float64:
+		return true
+	}
+	return false
 }
 
 // ---- Map ----
